@@ -148,6 +148,25 @@ func c05(args []string) {
 			extra = append(extra, ref)
 			extraBytes = append(extraBytes, leBytes(uint64(sf.Maps[0].RefFieldValue), int(ref.BaseType.Size())))
 		}
+		// destinations that expand further through a sub-field need that sub-field's reference field in the message too
+		var nested [][2]interface{}
+		for _, cm := range comps {
+			d := factory.CreateField(ow.mesg, cm.FieldNum)
+			for _, sf := range d.SubFields {
+				if len(sf.Components) > 0 && len(sf.Maps) > 0 {
+					nested = append(nested, [2]interface{}{sf.Maps[0].RefFieldNum, sf.Maps[r.intn(len(sf.Maps))].RefFieldValue})
+				}
+			}
+		}
+		if len(nested) > 0 && len(extra) == 0 {
+			pick := nested[r.intn(len(nested))]
+			ref := factory.CreateField(ow.mesg, pick[0].(byte))
+			if ref.BaseType.Size() > 0 && ref.Num != fld.Num {
+				extra = append(extra, ref)
+				extraBytes = append(extraBytes, leBytes(uint64(pick[1].(int64)), int(ref.BaseType.Size())))
+				stat("owners_with_nested_subfield_reference", 1)
+			}
+		}
 		size := int(fld.BaseType.Size())
 		elems := 1
 		if fld.Array {
